@@ -53,7 +53,25 @@ def modelObs (st : St) : DOp → Option St × String
       | none => (none, "P")
     | _ => (none, "bad-handle")
 
+/-- `DirSection::new` reserves the directory with `alloc_array` (C16_alloc_array: at the end of the image, 12 bytes per
+    slot) and reports that reservation's position — an offset in the image, not in the destination -/
+def runDirPos (kv : List (String × String)) : Res := Id.run do
+  let some pre := getNat kv "pre" | return .bad "pre"
+  let some start := getNat kv "start" | return .bad "start"
+  let some slots := getNat kv "slots" | return .bad "slots"
+  let some before := getNat kv "before" | return .bad "before"
+  let some after := getNat kv "after" | return .bad "after"
+  let some pos := get kv "position" | return .bad "position"
+  let tags := ["dir.position", if start == 0 then "dest.atZero" else "dest.offset"]
+  if before != pre then return .bad "pre"
+  if after != before + 12 * slots then
+    return .mismatch s!"directory of {slots} slots: the image grew from {before} to {after}, the model reserves {12 * slots} bytes" tags
+  if pos != toString before then
+    return .propfail s!"the directory was reserved at image offset {before}, but its reported position is {pos} (destination positioned at {start})" tags
+  return .ok tags (some s!"dirpos/{pre}/{start == 0}/{slots}")
+
 def run (kv : List (String × String)) : Res := Id.run do
+  if get kv "kind" == some "dirpos" then return runDirPos kv
   let some opsS := get kv "ops" | return .bad "no ops"
   let some obsS := get kv "obs" | return .bad "no obs"
   let some final := getHex kv "final" | return .bad "no final"
